@@ -4,6 +4,15 @@ CONSTANTS
   SmallVals <- SmallValsThorough
   RealAxes <- RealAxesThorough
   RealMaps <- RealMapsThorough
+  GenLevel = 2
+  GenFroms <- GenFromsThorough
+  GenTos <- GenTosThorough
+  GenAxes <- GenAxesThorough
+  RealAxes2 <- RealAxes2Thorough
+  RealMaps2 <- RealMaps2Thorough
+  LayAxes <- LayAxesThorough
+  LayMaps <- LayMapsQuick
+  Layouts <- LayoutsThorough
 SPECIFICATION Spec
-INVARIANTS DesignOK RealOK EmitCase EmitStat
+INVARIANTS DesignOK RealOK LayoutOK EmitCase EmitStat
 CHECK_DEADLOCK FALSE
